@@ -20,19 +20,31 @@ TRUSTED_BASE = [
     "axioms: none (Print Assumptions: Closed under the global context for every C08 theorem)",
     "tools/py2v.py fragment translator; the extern terms of tools/frags/shapeops.py (hand-written meaning of the "
     "tuple-wide expressions `reduce(operator.mul, (d for d in shape if d != -1), 1)` and "
-    "`tuple([d if d != -1 else extra for d in shape])` of COO.reshape)",
+    "`tuple([d if d != -1 else extra for d in shape])` of COO.reshape); the two `if` tests of COO.reshape that "
+    "select the fragments are tied by their exact source text only and transcribed by hand (coo_reshape_shape)",
     "Spec/NpShapeOps.v as a description of NumPy (np.transpose/reshape/squeeze/expand_dims/flip/roll/pad/"
     "broadcast_to/moveaxis), cross-checked against NumPy itself on every small generated case (judge_spec_np)",
-    "Model/ShapeOps.v as a transcription of the COO code paths, checked against the implementation's concrete "
-    "coords/data on every generated case; GCXS/DOK results are compared with the Spec only (dense meaning + "
-    "well-formedness), their internal algorithms (_transpose/_1d_reshape/_convert_coords) are not modelled",
+    "Model/ShapeOps.v as a transcription of the COO code paths (transpose, T, mT, swapaxes, moveaxis, reshape, flatten, "
+    "squeeze, expand_dims, flip, roll, pad, broadcast_to, and the constructor's sort), checked against the "
+    "implementation's concrete coords/data/fill/exception class on every generated case",
+    "GCXS and DOK inputs/results are compared with the Spec only (dense meaning, fill, well-formedness gcxs_wfb); the GCXS "
+    "algorithms (_transpose/_1d_reshape/_convert_coords/_2d_transpose, compressed-axes re-choice) are not modelled",
     "correspondence harness tools/props/c08.py, tools/vlib.py, Corr/SArr.v, Corr/C08Judge.v",
 ]
 ASSUMPTIONS = [
     "element values are opaque (V arbitrary with decidable equality); dtype handling is not modelled, the campaign "
     "checks that data values and the fill value are carried over unchanged (int64 data)",
-    "index dtype is intp (narrow/unsigned coordinate types are property C15)",
-    "the operation cache (enable_caching) is not modelled here (C11/C13)",
+    "index dtype is intp (narrow/unsigned coordinate types are property C15; roll's can_store guard always passes on intp)",
+    "the constructor's duplicate-merging pass is the identity on the duplicate-free coordinates every producer hands over "
+    "(proved: results are canonical) and is not modelled; the operation cache (enable_caching) is C11/C13",
+]
+UNPROVED = [
+    "GCXS transpose/reshape/_2d_transpose den + wf theorems (no GCXS model; correspondence against the Spec only)",
+    "moveaxis: equality of NumPy's insertion algorithm (moveaxis_order, which the theorem is stated about) with the "
+    "declarative np_moveaxis_perm (checked on every generated case by the judge, code 4)",
+    "broadcast_arrays: np_broadcast_shapes(shapes) is an accepted broadcast_to target for each operand (each output is "
+    "covered by broadcast_to_den once the common shape is given; the link is checked by correspondence)",
+    "kernel-level correspondence for _compressed/convert._convert_coords",
 ]
 
 CLAUSES = {
@@ -176,11 +188,12 @@ def impl_op(case):
         out = vlib.plain(ex)
     # the operand is not modified (cheap side check; C11 owns the property)
     out["operand_changed"] = vlib.plain(x) != before
+    out["in_dtype"] = str(x.dtype)
     if not case.get("huge"):
         d = vlib.spec_dense(spec)
         try:
             with np.errstate(all="ignore"):
-                ref = vlib.plain(np.ascontiguousarray(apply_np(np, d, op)))
+                ref = vlib.plain(np.array(apply_np(np, d, op)))
         except Exception as ex:  # noqa: BLE001
             ref = vlib.plain(ex)
             if isinstance(ex, (ValueError, IndexError)):       # AxisError is both
@@ -299,7 +312,9 @@ def gen_cases(tier, seed):
         nd = len(spec["shape"])
         fl = formats if formats is not None else fmt_cycle(rng, nd, th)
         for fmt, ca in fl:
-            cases.append({"spec": with_format(spec, fmt, ca), "op": op, "stream": stream, "huge": huge})
+            sp = with_format(spec, fmt, ca)
+            sp["dtype"] = rng.choice(["int64", "int64", "int64", "float64", "int16", "complex128"])
+            cases.append({"spec": sp, "op": op, "stream": stream, "huge": huge})
 
     coo_only = [("coo", None)]
     with_dok = lambda nd: fmt_cycle(rng, nd, th) + [("dok", None)]  # noqa: E731
@@ -350,8 +365,9 @@ def gen_cases(tier, seed):
             for pos in positions:
                 t1 = list(t)
                 t1[pos] = -1
-                add(arr(shape=rng.choice(srcs), density=rng.choice([0.15, 0.4, 1.0])),
-                    {"op": "reshape", "shape": t1, "api": "method"}, formats=[rng.choice(with_dok(len(src)))])
+                src1 = rng.choice(srcs)
+                add(arr(shape=src1, density=rng.choice([0.15, 0.4, 1.0])),
+                    {"op": "reshape", "shape": t1, "api": "method"}, formats=[rng.choice(with_dok(len(src1)))])
         add(arr(shape=rng.choice(srcs)), {"op": "reshape", "shape": [n], "int_shape": True, "api": "method"},
             formats=coo_only)
         add(arr(shape=rng.choice(srcs)), {"op": "reshape", "shape": [-1], "int_shape": True, "api": "method"},
@@ -497,6 +513,22 @@ def gen_cases(tier, seed):
         cases.append({"spec": h, "op": {"op": "roll", "shift": -7, "axis": 0}, "stream": "huge", "huge": True})
         cases.append({"spec": h, "op": {"op": "expand_dims", "axis": 1}, "stream": "huge", "huge": True})
 
+    # GCXS keeps its own `-1` inference (GCXS.reshape); a shape whose compressed axis is short keeps indptr small
+    hg = dict(hs[3])
+    hg["format"], hg["caxes"] = "gcxs", [0]
+    for t in ([-1], [-1, 3], [hs[3]["shape"][1], -1], [3, -1]):
+        cases.append({"spec": hg, "op": {"op": "reshape", "shape": t, "api": "method"}, "stream": "huge", "huge": True})
+    cases.append({"spec": hg, "op": {"op": "flatten"}, "stream": "huge", "huge": True})
+    # which functions the other formats offer at all (AttributeError on the method = not offered)
+    for _ in range(4):
+        s = arr(shape=[2, 1, 3])
+        for fmt, ca in (("gcxs", [0]), ("dok", None)):
+            for op in ({"op": "squeeze", "axis": None, "api": "func"}, {"op": "broadcast_to", "shape": [2, 2, 3], "api": "func"},
+                       {"op": "swapaxes", "a": 0, "b": 1}, {"op": "T"}, {"op": "mT", "api": "method"},
+                       {"op": "transpose", "axes": [2, 0, 1], "api": "permute_dims"}, {"op": "flatten"},
+                       {"op": "moveaxis", "s": 0, "d": 2}, {"op": "broadcast_arrays", "other": [4, 2, 1, 3]}):
+                cases.append({"spec": with_format(s, fmt, ca), "op": op, "stream": "valid", "huge": False})
+
     # ---- K. malformed stream: arguments NumPy rejects (compare the exception class with the model)
     mal = []
     for _ in range(40 if not th else 200):
@@ -556,6 +588,20 @@ def gen_cases(tier, seed):
 
 
 # ------------------------------------------------------------------ campaign
+def np_incomparable(c):
+    """cases on which the Spec deliberately is not NumPy's behaviour (documented in the Spec / report)"""
+    op, nd = c["op"], len(c["spec"]["shape"])
+    if op["op"] == "pad" and (op.get("cv") if op.get("cv") is not None else 0) != c["spec"]["fill"]:
+        return True       # the sparse pad only offers constant_values == fill_value
+    if op["op"] == "reshape" and any(d < -1 for d in op["shape"]):
+        return True       # NumPy treats every negative extent as the unknown one; the property speaks of -1
+    if op["op"] == "squeeze" and nd == 0 and op["axis"] is not None:
+        return True       # np.squeeze(0-d, axis=0 / -1) is accepted for backward compatibility
+    if op["op"] == "roll" and nd == 0 and op["axis"] == []:
+        return True       # np.roll(0-d, s, axis=()) raises from an unrelated unpacking quirk
+    return False
+
+
 def replay_line(case):
     s, op = case["spec"], case["op"]
     return ("import sys; sys.path.insert(0,'/verif/tools'); import vlib, sparse, numpy as np; from props.c08 import apply_op, apply_np; "
@@ -585,12 +631,15 @@ def campaign(build, tier, seed, report, budget=1):
         ol = op_lit(op)
         keep.append(i)
         lits.append(vpair(xl, ol, vlib.sarr_lit(r)))
-        if r and "np" in r and not (op["op"] == "pad" and (op.get("cv") if op.get("cv") is not None else 0) != c["spec"]["fill"]):
+        if r and "np" in r and not np_incomparable(c):
             np_idx.append(i)
             np_lits.append(vpair(xl, ol, vlib.sarr_lit(r["np"])))
         outcome = "raise" if (r or {}).get("k") == "exc" or "exc" in (r or {}) and "k" not in (r or {}) else (r or {}).get("k", "hang")
         t = f"{op['op']}/{fmt}/{c['stream']}/{outcome}"
         tags[t] = tags.get(t, 0) + 1
+        if r and r.get("k") in ("coo", "gcxs", "dok") and r.get("dtype") != r.get("in_dtype"):
+            viol.append({"property": "C08", "op": op["op"], "kind": "value", "clause": "dtype_changed", "format": fmt,
+                         "case": c, "impl": {k: v for k, v in r.items() if k != "np"}, "replay_py": replay_line(c)})
         if r and r.get("operand_changed"):
             viol.append({"property": "C08", "op": op["op"], "kind": "value", "clause": "operand_modified", "format": fmt,
                          "case": c, "impl": r, "replay_py": replay_line(c)})
@@ -606,6 +655,10 @@ def campaign(build, tier, seed, report, budget=1):
             kind, clause = "value", "result_not_canonical"
         elif code == 4:
             kind, clause = "representation", "model_differs_from_spec_in_domain"
+        elif code == 3 and c["spec"]["format"] == "gcxs" and c.get("huge") and op["op"] in ("reshape", "flatten"):
+            kind, clause = "value", "D12_gcxs_reshape_float_division"
+        elif code == 3 and c["spec"]["format"] in ("gcxs", "dok") and len(c["spec"]["shape"]) == 0:
+            kind, clause = "value", "zero_dim_gcxs_dok_input(D22)"
         elif code == 3:
             kind, clause = "value", None
         else:
@@ -638,6 +691,9 @@ def campaign(build, tier, seed, report, budget=1):
     cov["samples"] = [dict(case=cases[i], impl={k: v for k, v in (res[i] or {}).items() if k != "np"})
                       for i in (keep[0], keep[len(keep) // 3], keep[2 * len(keep) // 3], keep[-1])]
     cov["branch_tags"] = dict(sorted(tags.items()))
+    cov["unproved_statements"] = UNPROVED
+    cov["differential_only"] = ["GCXS and DOK results (dense meaning vs Spec)",
+                                "dtype of the result (compared with the operand's dtype in Python; int64/float64/int16/complex128)"]
     cov["streams"] = {s: sum(1 for i in keep if cases[i]["stream"] == s) for s in ("valid", "malformed", "huge")}
     return viol
 
